@@ -42,6 +42,23 @@
        timer = 0, before TimerFire; and TimerFire first); the interleaving *inside one loop
        iteration* (event set and timeout cancelled together) is not modelled
 
+   Vectors that name one node more than once (nothing in the wire format excludes them; a correct peer
+   never sends one). What such a vector denotes is fixed only as far as the statement of C18 fixes it:
+     * it "claims more data for this node than it has produced" if ANY of its entries for this node
+       exceeds self_seq (Overclaims quantifies over all entries): then it is ignored entirely
+     * otherwise C18 does not say which of the contradicting entries counts: a READING of the vector
+       keeps one entry per node (parameter d of Body: d[n] = which of n's entries; first, last, largest
+       and smallest are all readings), and the step must be the merge of SOME reading (the same one for
+       local_sv and for "heard"); or the vector is ignored as damaged (HasDup is a kind of Damaged:
+       choice "reject"). Mode "impl": the last entry of a node counts (rsv_dict[...] = ... in a loop)
+     * whether the vector is "explicitly outdated" (OutdatedStartsSuppression) is judged on the reading
+   The same vector again. The acceptance clauses of EntrywiseMax / OverclaimIgnored speak about the state
+   at the time a vector ARRIVES: a vector that over-claimed when it was first heard and is repeated
+   byte for byte (peers repeat their vector every sync interval) after the node has published enough is
+   an ordinary vector then. History variable mem (Remember = TRUE) remembers the decodable packet most
+   recently ignored / accepted, so that such histories are witnessed (AgainAccepted, AgainOutdated) in the
+   model and counted in the recorded executions; no action reads it.
+
    Named deviations (known findings; Dev = {} in stage A, both in B / C so that a path or trace
    that needs one is reported and the rest of it is still checked):
      "aggLocal"  aggregate() merges the received vector with local_sv instead of agg_sv
@@ -63,7 +80,8 @@ CONSTANTS NodeOrder,   \* sequence of node ids (strings); NodeOrder[1] is this n
           MaxReact,    \* publications the application may make inside one missing-data callback
           MaxEv,       \* bound on the number of events (0 = unbounded)
           TickEnds,    \* TRUE: time only advances to the expiry or to one tick before it (replay graph)
-          UseHint      \* TRUE only in SvsTrace: see `hint`
+          UseHint,     \* TRUE only in SvsTrace: see `hint`
+          Remember     \* TRUE: history variable mem is kept (multiplies the state space by the packets)
 
 VARIABLES local,     \* [Nodes -> Nat]   public local_sv (absent = 0)
           selfSeq,   \* public self_seq
@@ -75,13 +93,14 @@ VARIABLES local,     \* [Nodes -> Nat]   public local_sv (absent = 0)
           missed,    \* on_missing_data calls made by the last step
           last,      \* history: what the last step was (for the properties only)
           nev,
+          mem,       \* history: [rej, acc] the decodable packet most recently ignored / accepted (Remember)
           hint       \* not part of the model: lets SvsTrace name the observed timer' / state' *before*
                      \* the open choices are enumerated (65 x 2 fewer branches per recorded event);
                      \* always NoHint here
-vars == <<local, selfSeq, state, heard, agg, timer, out, missed, last, nev, hint>>
+vars == <<local, selfSeq, state, heard, agg, timer, out, missed, last, nev, mem, hint>>
 \* `last` is a pure history variable (no action reads it): TLC identifies states up to View, and
 \* still evaluates every action property on every transition with the real last'
-View == <<local, selfSeq, state, heard, agg, timer, out, missed, nev>>
+View == <<local, selfSeq, state, heard, agg, timer, out, missed, nev, mem>>
 
 \* values for NodeOrder (cfg: NodeOrder <- Nodes3)
 Nodes2 == <<"self", "n1">>
@@ -115,13 +134,32 @@ HasId(e) == e.id \notin {NoId, RootId}
 HasSeq(e) == e.seq # NoSeq
 Good(e) == HasId(e) /\ HasSeq(e)
 Decodable(p) == p.k = "sv" /\ Len(p.es) > 0
-Damaged(p) == \E i \in 1..Len(p.es) : ~Good(p.es[i])
+\* the well-formed entries of p, and how many of them name node n
+GoodEs(p) == SelectSeq(p.es, Good)
+Occ(es, n) == { i \in 1..Len(es) : es[i].id = n }
+HasDup(p) == \E n \in Nodes : Cardinality(Occ(GoodEs(p), n)) > 1
+Damaged(p) == (\E i \in 1..Len(p.es) : ~Good(p.es[i])) \/ HasDup(p)
+\* what p says about node n: the sequence numbers of all its well-formed entries for n
+Says(p) == [n \in Nodes |-> { GoodEs(p)[i].seq : i \in Occ(GoodEs(p), n) }]
 Overclaims(p, s) == \E i \in 1..Len(p.es) : Good(p.es[i]) /\ p.es[i].id = Self /\ p.es[i].seq > s
-\* sequence numbers of the well-formed entries of p that are below the local entry of their node
-OlderEntries(p, l) == { p.es[i].seq : i \in { j \in 1..Len(p.es) : Good(p.es[j]) /\ l[p.es[j].id] > p.es[j].seq } }
+\* sequence numbers of the entries of es (a reading of a vector) that are below the local entry of their node
+OlderEntries(es, l) == { es[i].seq : i \in { j \in 1..Len(es) : l[es[j].id] > es[j].seq } }
 Vec(p) == [n \in Nodes |->
              LET S == { p.es[i].seq : i \in { j \in 1..Len(p.es) : Good(p.es[j]) /\ p.es[j].id = n } }
              IN  IF S = {} THEN 0 ELSE CHOOSE x \in S : \A y \in S : x >= y]
+
+\* Readings. d \in [Nodes -> 1..k]: of the entries for node n the d[n]-th counts. Node ids are distinct in
+\* a reading, so the order of its entries is immaterial (it is given in NodeOrder).
+Max1(x) == IF x > 1 THEN x ELSE 1
+Rank(es, i) == Cardinality({ j \in 1..i : es[j].id = es[i].id })
+LastReading(es) == [n \in Nodes |-> Max1(Cardinality(Occ(es, n)))]
+AllReadings(es) ==
+  LET k == Max1(CHOOSE x \in { Cardinality(Occ(es, n)) : n \in Nodes } :
+                  \A y \in { Cardinality(Occ(es, n)) : n \in Nodes } : x >= y)
+  IN  { d \in [Nodes -> 1..k] : \A n \in Nodes : d[n] <= Max1(Cardinality(Occ(es, n))) }
+Resolve(es, d) ==
+  LET ns == SelectSeq(NodeOrder, LAMBDA n : Occ(es, n) # {})
+  IN  [x \in 1..Len(ns) |-> es[CHOOSE i \in Occ(es, ns[x]) : Rank(es, i) = d[ns[x]]]]
 
 -----------------------------------------------------------------------------
 (* sync_handler, following the code *)
@@ -140,7 +178,7 @@ Outdated(l, es) == \E i \in 1..Len(es) : l[es[i].id] > es[i].seq
 NeedNotif(l, es) == \E i \in 1..Len(es) :
                       \/ (es[i].id # Self /\ l[es[i].id] = 0)
                       \/ l[es[i].id] > es[i].seq
-\* rsv_dict as a total function (node ids within one vector are distinct, sequence numbers >= 0)
+\* rsv_dict as a total function (es is a reading: node ids are distinct; sequence numbers >= 0)
 DictOf(es) == Merge(Zero, es)
 IdsOf(es) == { es[i].id : i \in 1..Len(es) }
 \* aggregate(): agg_sv[id] = max(agg_sv.get(id, 0), seq)        (as it should be)
@@ -153,6 +191,11 @@ Aggregate(a, l, es) ==
 FirstNoSeq(es) == CHOOSE i \in 1..Len(es) : ~HasSeq(es[i]) /\ \A j \in 1..(i-1) : HasSeq(es[j])
 BeforeNoSeq(es) == SubSeq(es, 1, FirstNoSeq(es) - 1)
 
+NoPkt == [k |-> "nil", es |-> <<>>]
+NoMem == [rej |-> NoPkt, acc |-> NoPkt]
+Mem(p, acc) == mem' = (IF Remember /\ Decodable(p)
+                       THEN (IF acc THEN [mem EXCEPT !.acc = p] ELSE [mem EXCEPT !.rej = p])
+                       ELSE mem)
 NoHint == [t |-> -1, s |-> "any"]
 Hinted == IF UseHint THEN TRUE ELSE hint' = NoHint         \* first conjunct of every action
 AnyTimer == IF hint'.t = -1 THEN 0..MaxT ELSE {hint'.t} \cap 0..MaxT
@@ -164,22 +207,32 @@ Count == nev' = IF MaxEv = 0 THEN 0 ELSE nev + 1
 More == MaxEv = 0 \/ nev < MaxEv
 
 \* last.sup: the step started in Suppress
-LastRecv(p, acc, r) == [a |-> "RecvSV", n |-> r, acc |-> acc, dec |-> Decodable(p), dmg |-> Damaged(p),
-                     oc |-> Overclaims(p, selfSeq), v |-> Vec(p), sup |-> (state = "Suppress"),
-                     old |-> OlderEntries(p, local) # {}, old0 |-> 0 \in OlderEntries(p, local)]
+\* es: the reading of p the step took (meaningful when acc). och: p over-claims, but not in the entries a
+\* reader who keeps the last entry of every node sees. again / againA: p is the packet most recently ignored / accepted
+LastRecv(p, acc, r, es) ==
+  [a |-> "RecvSV", n |-> r, acc |-> acc, dec |-> Decodable(p), dmg |-> Damaged(p),
+   oc |-> Overclaims(p, selfSeq), v |-> (IF acc THEN Merge(Zero, es) ELSE Vec(p)), sup |-> (state = "Suppress"),
+   old |-> OlderEntries(es, local) # {}, old0 |-> 0 \in OlderEntries(es, local),
+   says |-> Says(p), dup |-> HasDup(p),
+   och |-> (Overclaims(p, selfSeq) /\ ~(\E i \in 1..Len(Resolve(GoodEs(p), LastReading(GoodEs(p)))) :
+                                          LET e == Resolve(GoodEs(p), LastReading(GoodEs(p)))[i]
+                                          IN  e.id = Self /\ e.seq > selfSeq)),
+   again |-> (Remember /\ p = mem.rej), againA |-> (Remember /\ p = mem.acc)]
 LastOther(a, n) == [a |-> a, n |-> n, acc |-> FALSE, dec |-> FALSE, dmg |-> FALSE, oc |-> FALSE, v |-> Zero,
-                    sup |-> (state = "Suppress"), old |-> FALSE, old0 |-> FALSE]
+                    sup |-> (state = "Suppress"), old |-> FALSE, old0 |-> FALSE,
+                    says |-> [x \in Nodes |-> {}], dup |-> FALSE, och |-> FALSE, again |-> FALSE, againA |-> FALSE]
 
 Ignore(p, r) ==
   /\ UNCHANGED <<local, selfSeq, state, heard, agg>>
   /\ timer' \in KeepTimer
   /\ out' = <<>> /\ missed' = 0
-  /\ last' = LastRecv(p, FALSE, r)
+  /\ last' = LastRecv(p, FALSE, r, GoodEs(p))
+  /\ Mem(p, FALSE)
 
 \* the callback runs last: r > 0 publications inside it (new_data: own entry, state Steady,
 \* next_sync_timing = 0) override whatever the handler decided about suppression and timers,
 \* and on_timer wakes up at once
-ProcessAndPublish(p, j, r, l2) ==
+ProcessAndPublish(p, j, r, l2, es) ==
   /\ selfSeq' = selfSeq + r
   /\ local' = [l2 EXCEPT ![Self] = selfSeq + r]
   /\ missed' = 1
@@ -187,12 +240,13 @@ ProcessAndPublish(p, j, r, l2) ==
        out' = [i \in 1..m |-> [l2 EXCEPT ![Self] = selfSeq + r - m + i]]
   /\ state' = "Steady" /\ heard' = Zero /\ agg' = Zero
   /\ timer' \in SyncTimers(j)
-  /\ last' = LastRecv(p, TRUE, r)
+  /\ last' = LastRecv(p, TRUE, r, es)
+  /\ Mem(p, TRUE)
 
-Process(p, j, r) ==
-  LET es == SelectSeq(p.es, Good)
-      l2 == Merge(local, es)
-  IN  IF r > 0 /\ l2 # local THEN ProcessAndPublish(p, j, r, l2) ELSE
+\* es: the reading of p that counts
+Process(p, j, r, es) ==
+  LET l2 == Merge(local, es)
+  IN  IF r > 0 /\ l2 # local THEN ProcessAndPublish(p, j, r, l2, es) ELSE
       /\ local' = l2
       /\ missed' = (IF l2 # local THEN 1 ELSE 0)
       /\ out' = <<>>
@@ -210,7 +264,8 @@ Process(p, j, r) ==
               /\ heard' = MaxV(heard, DictOf(es))
               /\ agg' = Aggregate(agg, l2, es)
               /\ timer' \in KeepTimer
-      /\ last' = LastRecv(p, TRUE, r)
+      /\ last' = LastRecv(p, TRUE, r, es)
+      /\ Mem(p, TRUE)
 
 DevNoSeqEnabled(p) ==
   /\ "noSeq" \in Dev /\ p.k = "sv"
@@ -224,7 +279,8 @@ DevNoSeq(p, r) ==
   /\ local' = Merge(local, BeforeNoSeq(WithId(p.es)))
   /\ UNCHANGED <<selfSeq, state, heard, agg, timer>>
   /\ out' = <<>> /\ missed' = 0
-  /\ last' = LastRecv(p, FALSE, r)
+  /\ last' = LastRecv(p, FALSE, r, GoodEs(p))
+  /\ Mem(p, FALSE)
 
 RecvChoices(p) ==
   {"norm"} \cup (IF Decodable(p) /\ ~OverclaimIn(WithId(p.es), selfSeq)
@@ -239,13 +295,16 @@ RecvSV(p, j, c, r) ==
   /\ More /\ Count
   /\ c \in RecvChoices(p)
   /\ LET hopeless == p.k # "sv" \/ p.es = <<>> \/ OverclaimIn(WithId(p.es), selfSeq)
-         raises == ~hopeless /\ Merge(local, SelectSeq(p.es, Good)) # local
-     IN  /\ (hopeless \/ state = "Suppress") => j = 0
-         /\ ~raises => r = 0            \* the reaction is part of the stimulus only where the callback can fire
-         /\ selfSeq + r <= MaxSeq
-         /\ IF c = "devNoSeq" THEN DevNoSeq(p, r)
-            ELSE IF hopeless \/ c = "reject" THEN Ignore(p, r)
-            ELSE Process(p, j, r)
+         ges == GoodEs(p)
+     IN  \E d \in (IF Mode = "impl" \/ hopeless \/ c # "norm" THEN {LastReading(ges)} ELSE AllReadings(ges)) :
+           LET es == Resolve(ges, d)
+               raises == ~hopeless /\ Merge(local, es) # local
+           IN  /\ (hopeless \/ state = "Suppress") => j = 0
+               /\ ~raises => r = 0      \* the reaction is part of the stimulus only where the callback can fire
+               /\ selfSeq + r <= MaxSeq
+               /\ IF c = "devNoSeq" THEN DevNoSeq(p, r)
+                  ELSE IF hopeless \/ c = "reject" THEN Ignore(p, r)
+                  ELSE Process(p, j, r, es)
 
 (* on_timer, TimeoutError branch *)
 FireChoices ==
@@ -265,7 +324,7 @@ TimerFire(j, c) ==
   /\ state' = "Steady" /\ heard' = Zero /\ agg' = Zero
   /\ timer' \in SyncTimers(j)
   /\ missed' = 0
-  /\ UNCHANGED <<local, selfSeq>>
+  /\ UNCHANGED <<local, selfSeq, mem>>
   /\ last' = LastOther("TimerFire", 0)
 
 (* new_data() n times in one loop turn, then on_timer wakes up with next_sync_timing = 0 *)
@@ -280,6 +339,7 @@ Publish(n, j, m) ==
   /\ state' = "Steady" /\ heard' = Zero /\ agg' = Zero
   /\ timer' \in SyncTimers(j)
   /\ missed' = 0
+  /\ UNCHANGED mem
   /\ last' = LastOther("Publish", n)
 
 Tick(d) ==
@@ -289,7 +349,7 @@ Tick(d) ==
   /\ TickEnds => d >= timer - 1
   /\ timer' = timer - d
   /\ out' = <<>> /\ missed' = 0
-  /\ UNCHANGED <<local, selfSeq, state, heard, agg>>
+  /\ UNCHANGED <<local, selfSeq, state, heard, agg, mem>>
   /\ last' = LastOther("Tick", 0)
 
 InitWith(s0, t0) ==
@@ -298,9 +358,9 @@ InitWith(s0, t0) ==
   /\ state = "Steady" /\ heard = Zero /\ agg = Zero
   /\ timer = t0
   /\ out = <<>> /\ missed = 0
-  /\ last = [a |-> "Init", n |-> 0, acc |-> FALSE, dec |-> FALSE, dmg |-> FALSE, oc |-> FALSE, v |-> Zero,
-             sup |-> FALSE, old |-> FALSE, old0 |-> FALSE]
+  /\ last = [LastOther("Init", 0) EXCEPT !.sup = FALSE]
   /\ nev = 0
+  /\ mem = NoMem
   /\ hint = NoHint
 
 JitterSet == IF Mode = "impl" THEN Jitter ELSE {0}
@@ -334,9 +394,13 @@ Monotone == [][\A n \in Nodes : local'[n] >= local[n]]_vars
 
 \* "the local state vector is the entry-wise maximum of its previous value and every accepted
 \*  received vector"; a decodable, undamaged vector that does not over-claim must be accepted,
-\*  an undecodable or over-claiming one must not, and nothing but RecvSV / Publish moves the vector
+\*  an undecodable or over-claiming one must not, and nothing but RecvSV / Publish moves the vector;
+\*  the accepted vector (last'.v) is a reading of what the packet says: for every node one of the
+\*  sequence numbers the packet lists for it (exactly that number when the packet names the node once)
 EntrywiseMax ==
   [][ /\ (IsRecv /\ last'.acc) => local' = [MaxV(local, last'.v) EXCEPT ![Self] = selfSeq']
+      /\ (IsRecv /\ last'.acc) => \A n \in Nodes : IF last'.says[n] = {} THEN last'.v[n] = 0
+                                                                            ELSE last'.v[n] \in last'.says[n]
       /\ (IsRecv /\ ~CbPub) => selfSeq' = selfSeq
       /\ (IsRecv /\ ~last'.acc) => local' = local
       /\ (IsRecv /\ last'.dec /\ ~last'.dmg /\ ~last'.oc) => last'.acc
@@ -414,7 +478,8 @@ CallbackSaw == IF missed' = 1 THEN <<[local' EXCEPT ![Self] = selfSeq]>> ELSE <<
 WitnessNames == <<"SupEmit", "SupNoEmit", "OverclaimWouldRaise", "Incomparable", "OlderNoCallback",
                   "DamagedAccepted", "DamagedRejected", "UndecodableInSup", "Burst", "PublishInSup",
                   "SteadyEmit", "HeardInSup", "EnterSup", "ActRecvSV", "ActPublish", "ActTimerFire", "ActTick",
-                  "OutdatedZero", "CallbackPublish", "CallbackPublishInSup", "CallbackPublishTwice">>
+                  "OutdatedZero", "CallbackPublish", "CallbackPublishInSup", "CallbackPublishTwice",
+                  "DupAccepted", "DupOverclaimHidden", "DupNotMax", "AgainAccepted", "AgainOutdated">>
 WBase == 9000
 ASSUME \A i \in 1..Len(WitnessNames) : TLCSet(WBase + i, 0)
 Seen(i, cond) == (cond /\ TLCGet(WBase + i) = 0) => (PrintT(<<"WITNESS", WitnessNames[i]>>) /\ TLCSet(WBase + i, 1))
@@ -439,5 +504,15 @@ Witnesses ==
       /\ Seen(18, IsRecv /\ last'.acc /\ last'.old0 /\ state = "Steady" /\ state' = "Suppress")
       /\ Seen(19, CbPub /\ state = "Steady")
       /\ Seen(20, CbPub /\ state = "Suppress")
-      /\ Seen(21, CbPub /\ last'.n >= 2) ]_vars
+      /\ Seen(21, CbPub /\ last'.n >= 2)
+      \* a vector naming a node twice is merged and raises an entry
+      /\ Seen(22, IsRecv /\ last'.dup /\ last'.acc /\ missed' = 1)
+      \* a vector that over-claims in an entry that is not the last one for this node, and would raise another entry
+      /\ Seen(23, IsRecv /\ last'.och /\ \E n \in Others : last'.v[n] > local[n])
+      \* a reading that does not take the largest entry of a node (what the library does: the last entry counts)
+      /\ Seen(24, IsRecv /\ last'.dup /\ last'.acc /\ \E n \in Nodes : \E x \in last'.says[n] : x > last'.v[n])
+      \* (Remember only) the vector that was ignored last time is repeated and now raises an entry
+      /\ Seen(25, IsRecv /\ last'.again /\ last'.acc /\ missed' = 1)
+      \* (Remember only) the vector that was accepted last time is repeated, is outdated now and starts suppression
+      /\ Seen(26, IsRecv /\ last'.againA /\ last'.acc /\ last'.old /\ state = "Steady" /\ state' = "Suppress") ]_vars
 =============================================================================
